@@ -73,14 +73,38 @@ def sha(model) -> str:
     return hashlib.sha1(model.SerializeToString(deterministic=True)).hexdigest()
 
 
-def snap_var(v):
-    val = v._value
-    if val is not None:
+def get_manager():
+    """The private context manager, or None if this tree has no such function (then the facet is skipped)."""
+    try:
+        from spox._public import _temporary_renames
+
+        return _temporary_renames
+    except Exception:  # noqa: BLE001
+        return None
+
+
+def _freeze(x):
+    """A comparable stand-in for an attribute value of a Var."""
+    if x is None or isinstance(x, (str, int, float, bool)):
+        return x
+    if hasattr(x, "value") and hasattr(x, "type") and not hasattr(x, "_op"):  # a propagated value
         try:
-            val = (type(val).__name__, repr(val.type), np.asarray(val.value).tobytes() if isinstance(val.value, np.ndarray) else repr(val.value))
+            val = x.value
+            return (type(x).__name__, repr(x.type), np.asarray(val).tobytes() if isinstance(val, np.ndarray) else repr(val))
         except Exception:  # noqa: BLE001
-            val = ("unprintable", id(val))
-    return {"type": v.type, "value": val, "name": v._name, "op": id(v._op)}
+            return ("id", id(x))
+    if hasattr(x, "_to_onnx"):  # a spox Type: value equality
+        return x
+    return ("id", id(x))
+
+
+def snap_var(v):
+    """Every instance attribute of the Var (type, _value, _name, _op on this tree), name-agnostic."""
+    try:
+        items = vars(v).items()
+    except TypeError:
+        items = [(k, getattr(v, k, None)) for k in getattr(type(v), "__slots__", ())]
+    return {k.lstrip("_"): _freeze(x) for k, x in items}
 
 
 def snapshot(env):
@@ -96,9 +120,14 @@ def diff(before, after):
         a = after.get(i)
         if a is None:
             continue
-        for f in ("name", "type", "value", "op"):
-            if a[f] != b[f]:
-                out.append((f, i, repr(b[f])[:80], repr(a[f])[:80]))
+        for f in sorted(set(a) | set(b)):
+            x, y = b.get(f, "<absent>"), a.get(f, "<absent>")
+            try:
+                same = bool(x == y)
+            except Exception:  # noqa: BLE001
+                same = x is y
+            if not same:
+                out.append((f, i, repr(x)[:80], repr(y)[:80]))
     return out
 
 
@@ -112,9 +141,9 @@ def run_case(prog, hist, ref, collect_all=False):
     Returns {"violations": [[key, what, step]], "ref_before", "ref_mid", "ref_after"} where the ref_*
     are sha1 of SerializeToString(deterministic=True) or 'err:<class>'."""
     import spox
-    from spox import Var
-    from spox._public import _temporary_renames
     import spox.opset.ai.onnx.v17 as op
+
+    manager = get_manager()
 
     env = lf.realize(prog)
     models = {}
@@ -184,15 +213,19 @@ def run_case(prog, hist, ref, collect_all=False):
                     tag = "inline-ok"
                 except Exception:  # noqa: BLE001
                     tag = "inline-failed"
+            elif kind == "renames" and manager is None:
+                tag = "skipped"
             elif kind == "renames":
                 kw = {k: env[i] for k, i in o["kw"]}
                 try:
-                    with _temporary_renames(**kw):
+                    with manager(**kw):
                         if o["raises"]:
                             raise _Boom()
                     tag = "renames-ok"
                 except _Boom:
                     tag = "renames-raised"
+                except Exception:  # noqa: BLE001 - a changed signature: facet not observable here
+                    tag = "skipped"
             else:
                 raise ValueError(kind)
         for f, i, b, a in diff(before, snapshot(env)):
@@ -297,7 +330,7 @@ def gen_reuse_family(rng: random.Random, n):
     return {"progs": progs, "req": req}
 
 
-def run_reuse_family(fam):
+def run_reuse_family(fam, rounds=2):
     """Build every program once, freeing it before the next is made; then do it all again.
     Equal requests must give equal bytes both times. Returns [[key, what]]."""
     import gc
@@ -313,11 +346,12 @@ def run_reuse_family(fam):
         return shas
 
     first = one_round()
-    second = one_round()
     bad = []
-    for j, (a, b) in enumerate(zip(first, second)):
-        if a != b:
-            bad.append(["bytes:stale-after-address-reuse",
-                        f"program {j} of a family of look-alike programs: {a} when built first, {b} when built again after its Vars were freed and others built"])
-            break
+    for _ in range(rounds - 1):
+        again = one_round()
+        for j, (a, b) in enumerate(zip(first, again)):
+            if a != b:
+                bad.append(["bytes:stale-after-address-reuse",
+                            f"program {j} of a family of look-alike programs: {a} when built first, {b} when built again after its Vars were freed and others built"])
+                return bad
     return bad
